@@ -60,6 +60,12 @@ def run(rep: Report, repo: Repo):
         ok = len(calls) == 1 and len(in_tail) == 1
         rep.ob('C16.presence', f'm={m}: {len(calls)} call(s), {len(in_tail)} after the chain', ok,
                sample={'rule': 'C16.presence', 'm': m, 'calls': [norm(c) for c in calls]})
+        # ... on every path through the loop body: nothing may leave the iteration before the callback site
+        jumps = [n for st in d.loop.body for n in ast.walk(st) if isinstance(n, (ast.Continue, ast.Break, ast.Return))]
+        rep.ob('C16.presence', f'm={m}: no continue/break/return in the per-op loop', not jumps)
+        for j in jumps:
+            rep.violate('C16.presence', mod, cp, j, f'm == {m}: `{norm(j)}` inside the per-op loop leaves the iteration before the callback is invoked: the signals evaluated on that '
+                        f'path are never shown to the callback and cannot be overwritten', node=j)
         if not calls:
             rep.violate('C16.presence', mod, cp, f'm == {m}: no {cb}(...) call in the per-op loop', f'm == {m}: the callback is never invoked in this logic', node=d.loop)
             continue
